@@ -54,6 +54,10 @@ pub struct GenCfg {
     /// those requests with a MethodNotFound error; settings stay at their defaults all session
     #[serde(default)]
     pub config_errors: bool,
+    /// the pre-existing user dictionary is large (tens of kilobytes, many non-ASCII words): its
+    /// bytes cross every buffer size a reader or writer might use
+    #[serde(default)]
+    pub big_dict: bool,
     /// C08: after every text change, request code actions at every position inside every
     /// published diagnostic range (bounded)
     #[serde(default)]
